@@ -2,12 +2,13 @@ import ChythonModel.Model.Stereo
 /-!
 # C12 — witnesses for the findings (informational; failing to build is never an alarm)
 
-All four findings below were repaired in /repo (`fix:` commits, see known_findings/C12.json); the model follows the
+All findings of C12 were repaired in /repo (`fix:` commits, see known_findings/C12.json); the model follows the
 repaired code, so the *full* statements in `Props/C12.lean` hold.  This file keeps the pre-fix rules next to concrete
 witnesses showing that the full statements were false for them — it documents what each fix changed.
 
-The one finding that is still open (`__ct_map`: a labelled double bond of a conjugated ring system written as the
-ring-closure bond) concerns code that is not in the Lean model; it has no Lean witness, only the run-time probe.
+The fifth finding (`__ct_map`: labelled conjugated double bonds in a ring got unchecked marks) was repaired by the C02
+engineer in /repo 891fb3c; that code is not in the Lean model, so it has no Lean witness here, only the run-time
+regression probe.
 -/
 namespace ChythonModel.Findings.C12
 open ChythonModel.Model.Stereo
